@@ -189,7 +189,9 @@ def _boundary_after_name(pattern: str) -> bool:
                     if len(sub) == 1 and str(sub[0][0]) == "IN" and any("CATEGORY_WORD" in str(x[1]) for x in sub[0][1]):
                         return True
                     if len(sub) == 1 and str(sub[0][0]) == "IN":
-                        return True  # an explicit class of continuation characters
+                        # an explicit class of continuation characters: it has to cover what the undefined-variable scan (`\$\w+`,
+                        # Unicode-aware) takes for a name character — an ASCII-only class ends `$idé` after `$id`
+                        return False
                 if str(nop) == "AT" and "END" in str(nav):
                     return True
                 return False
